@@ -131,6 +131,7 @@ mod raw {
 
             let mut stdout_ref = self.stdout.as_ref();
             let mut stderr_ref = self.stderr.as_ref();
+            let mut first_round = true;
 
             loop {
                 if let Some(size_limit) = size_limit {
@@ -143,6 +144,16 @@ mod raw {
                     // When no stream remains, we are done.
                     break;
                 }
+
+                // Check the deadline before every round but the first, not
+                // only when poll() finds nothing ready: a subprocess that
+                // always has data ready must not be able to defeat the limit.
+                if let Some(deadline) = deadline {
+                    if !first_round && Instant::now() >= deadline {
+                        return Err(io::Error::new(io::ErrorKind::TimedOut, "timeout"));
+                    }
+                }
+                first_round = false;
 
                 let (in_ready, out_ready, err_ready) =
                     maybe_poll(self.stdin.as_ref(), stdout_ref, stderr_ref, deadline)?;
